@@ -87,7 +87,7 @@ def gen_msd_text(rng, fmt=None):
     if fmt == "ssc" or (fmt == "any" and rng.random() < 0.4):
         if rng.random() < 0.85:
             param(_case(rng, "VERSION"), ["0.83"])
-    nparams = rng.randint(0, 6)
+    nparams = rng.randint(0, 6) if rng.random() < 0.97 else rng.randint(20, 80)
     used = []
     for _ in range(nparams):
         stray()
@@ -102,14 +102,16 @@ def gen_msd_text(rng, fmt=None):
             param(_case(rng, k), [_val(rng) for _ in range(rng.randint(2, 4))])
         else:
             param(_case(rng, k), [_val(rng)])
-    ncharts = rng.randint(0, 2)
+    ncharts = rng.randint(0, 2) if rng.random() < 0.97 else rng.randint(5, 20)
     for _ in range(ncharts):
         stray()
         which = fmt if fmt != "any" else rng.choice(["sm", "ssc"])
         if which == "sm":
             n = 6 if rng.random() < 0.8 else rng.choice([0, 1, 3, 5, 7, 8])
-            comps = [rng.choice(["", " ", nl + "     "]) + _val(rng).replace("#", "") +
-                     rng.choice(["", " ", nl]) for _ in range(n)]
+            pad = ["", " ", nl + "     ", "\t", "\u3000", "\xa0", "\x0b", "\x0c", "\x1c", "\x85",
+                   "\u2028", "\r", " " + nl + " "]
+            comps = [rng.choice(pad if rng.random() < 0.3 else pad[:3]) + _val(rng).replace("#", "") +
+                     rng.choice(pad if rng.random() < 0.3 else ["", " ", nl]) for _ in range(n)]
             param(_case(rng, "NOTES"), comps, keyonly=(n == 0 and rng.random() < 0.5))
         else:
             param(_case(rng, "NOTEDATA"), [""], keyonly=rng.random() < 0.1)
